@@ -98,6 +98,24 @@ static void work_path(long lo, long hi, struct res *r, void *arg) {
         for (int i = 0; i < 32; i++) E.mask[i] = (uint8_t)prng(&ps);
         polyseed_crypt(d0, "p\xC3\xA4ss"); polyseed_crypt(d0, "pa\xCC\x88ss"); r->calls += 2;
         r->cases++; bad |= keygen_case(d0, &s, coin, 32, 0, r, rep, "path-crypt2");
+        /* encrypt, write the phrase down, restore it, decrypt: the restored and decrypted seed is the original */
+        if (!bad) {
+            E.mask[18] |= (uint8_t)(0x40 << (x & 1));
+            polyseed_crypt(d0, "secret"); polyseed_str ph; int li = (int)(x % R_NLANG); polyseed_encode(d0, polyseed_get_lang(li), (polyseed_coin)coin, ph); polyseed_crypt(d0, "secret");
+            polyseed_data *d3 = NULL; int st = polyseed_decode_explicit(ph, (polyseed_coin)coin, polyseed_get_lang(li), &d3); r->calls += 4;
+            if (st != POLYSEED_OK) { res_viol(r, "c04:path-crypt-decode-status", rep, "phrase of an encrypted seed does not decode (%d)", st); bad = 1; }
+            else { polyseed_crypt(d3, "secret"); r->cases++; bad |= keygen_case(d3, &s, coin, 32, 0, r, rep, "path-crypt-phrase-decrypt"); polyseed_free(d3); }
+        }
+        /* create with argument bits above the three feature bits set: they are not part of the seed */
+        if (!bad && !(s.features & 16)) {
+            uint8_t kt[32]; uint64_t kc = E.clock[0]; memcpy(kt, E.tape[0], 32);
+            memset(E.tape[0], 0, 32); memcpy(E.tape[0], s.secret, 19); E.clock[0] = ref_birthday_time(s.birthday) + 3;
+            static const unsigned HI[] = { 0x100, 0xFFFFFFF8u, 0x20, 0x8, 0x10 };
+            polyseed_data *d4 = NULL; unsigned arg = (s.features & 7) | HI[x % 5];
+            if (polyseed_create(arg, &d4) == POLYSEED_OK) { r->cases++; bad |= keygen_case(d4, &s, coin, 32, 0, r, rep, "path-create-high-argument-bits"); polyseed_free(d4); }
+            else { res_viol(r, "c04:path-create-high", rep, "create(%#x) failed although the three low bits are enabled", arg); bad = 1; }
+            memcpy(E.tape[0], kt, 32); E.clock[0] = kc;
+        }
         polyseed_free(d0);
         if (!bad) r->cls[2]++;
     }
